@@ -255,8 +255,18 @@ class EnsembleLayout(E2Contract):
         for mp in inp["mps"]:
             r = ops.compose_qoperations(mp, r)
         idxs = list(itertools.product(*[range(m) for m in cfg]))
-        return dict(shape=list(r.prob_dist.shape), by_tuple=[r.state(i).vec for i in idxs], by_serial=[r.state(k).vec for k in range(len(idxs))],
-                    p_tuple=[r.prob_dist[i] for i in idxs], p_serial=[r.prob_dist[k] for k in range(len(idxs))])
+        out = dict(shape=list(r.prob_dist.shape), by_tuple=[r.state(i).vec for i in idxs], by_serial=[r.state(k).vec for k in range(len(idxs))],
+                   p_tuple=[r.prob_dist[i] for i in idxs], p_serial=[r.prob_dist[k] for k in range(len(idxs))])
+        if len(cfg) > 1:
+            # the same measurements composed into ONE measurement process (multi-index outcome shape) first, then applied to the state
+            mp_all = inp["mps"][0]
+            for mp in inp["mps"][1:]:
+                mp_all = ops.compose_qoperations(mp, mp_all)
+            r2 = ops.compose_qoperations(mp_all, inp["st"])
+            out["joint_shape"] = list(r2.prob_dist.shape)
+            out["joint_by_tuple"] = [r2.state(i).vec for i in idxs]
+            out["joint_p_tuple"] = [r2.prob_dist[i] for i in idxs]
+        return out
 
     def post(self, W, cfg, inp, out):
         S = W.S
@@ -270,4 +280,66 @@ class EnsembleLayout(E2Contract):
         for k, i in enumerate(idxs):
             cl.append(eq(f"state[{i}]", S.op_from_vec(c_sys, out["by_tuple"][k]) * ref[i][0], ref[i][1],
                          "state(x1,..) is the post-measurement state of exactly that outcome sequence"))
+        if "joint_shape" in out:
+            cl += [eq("joint-process/shape", out["joint_shape"], list(cfg), "a multi-outcome measurement process applied to a state keeps its outcome shape"),
+                   eq("joint-process/probabilities", out["joint_p_tuple"], [ref[i][0] for i in idxs], "and addresses the same probabilities by tuple"),
+                   eq("joint-process/states", [S.op_from_vec(c_sys, v) * ref[i][0] for v, i in zip(out["joint_by_tuple"], idxs)], [ref[i][1] for i in idxs],
+                      "and the same post-measurement states")]
         return cl
+
+
+class ValidateProbDist(E2Contract):
+    """math.probability.validate_prob_dist: accepted <=> every entry >= -eps and (when the sum is validated) |sum - 1| <= eps, with eps an ABSOLUTE
+    tolerance (1e-8 by default); rejected inputs raise ValueError"""
+    name = "validate_prob_dist"
+    prop = "C16"
+    targets = ("quara.math.probability:validate_prob_dist",)
+    may_raise = True
+    max_paths = 64
+    n_conformance = 2
+
+    def configs(self, tier):
+        return [(2, True, "eps"), (3, True, "default"), (3, False, "eps")] + ([(5, True, "eps")] if tier == "thorough" else [])
+
+    def inputs(self, W, cfg, mk):
+        n, vs, how = cfg
+        eps = mk.real("eps")
+        mk.require(eps >= 1e-12)
+        mk.require(eps <= 1e-2)
+        return dict(p=mk.array("p", n), eps=eps)
+
+    def sample(self, cfg, names, rng):
+        n = cfg[0]
+        w = [rng.uniform(0.05, 1) for _ in range(n)]
+        tot = sum(w)
+        off = rng.choice([0.0, 1e-9, -1e-9, 3e-7, -3e-7, 1e-6, 1e-4, 0.1])
+        vals = {f"p_{k}": w[k] / tot for k in range(n)}
+        vals["p_0"] += off
+        if rng.random() < 0.3:
+            vals[f"p_{n - 1}"] -= rng.choice([1e-9, 1e-6, 0.2])
+        vals["eps"] = 10 ** rng.uniform(-12, -2)
+        return vals
+
+    def run(self, W, cfg, inp):
+        n, vs, how = cfg
+        f = W.mod("quara.math.probability").validate_prob_dist
+        if how == "default":
+            f(inp["p"], validate_sum=vs)
+        else:
+            f(inp["p"], eps=inp["eps"], validate_sum=vs)
+        return "accepted"
+
+    def post(self, W, cfg, inp, out):
+        from qverif.symtwin.verify import Raised
+        n, vs, how = cfg
+        S = W.S
+        eps = 1e-8 if how == "default" else inp["eps"]
+        tot = inp["p"][0]
+        for k in range(1, n):
+            tot = tot + inp["p"][k]
+        ok = S.And(*[inp["p"][k] >= -eps for k in range(n)])
+        if vs:
+            ok = S.And(ok, S.abs(tot - 1) <= eps)
+        if isinstance(out, Raised):
+            return [true("accepts-iff-valid", S.And(out.name == "ValueError", S.Not(ok)), "a ValueError is raised => an entry is below -eps or the sum is further than eps from 1")]
+        return [true("accepts-iff-valid", ok, "accepted => every entry >= -eps and |sum - 1| <= eps (absolute tolerance)")]
